@@ -22,7 +22,7 @@ def wDupOver : Xf := .duplicateObject { object := ⟨"p", "A"⟩, as_ := ⟨"p",
 def wStrTy : Ty := .scalar "string" .nil [] freshMeta
 
 def witnesses : List Witness := [
-  ⟨"C15_rename_object_counterexample_case", "rename_object/ref-match-case-sensitive",
+  ⟨"C15_rename_object_counterexample_case", "rename_object/from-differs-in-case",
     [wRenCase], RenameObject.wS (.ref "p" "Foo" freshMeta)⟩,
   ⟨"C15_rename_object_counterexample_offpath", "rename_object/refs-outside-visitor-positions",
     [wRenOff], RenameObject.wS (.cref "p" "Foo" (.str "x") freshMeta)⟩,
